@@ -165,6 +165,21 @@ def runNp (args : List String) : Option String :=
   | ["np", "get", t, i] => do
     let t ← parseTiling? t; let i ← parseIntArg? i
     pure (fmtResN fmtNS (getItemI t i))
+  | ["np", "roi", shape, axis, roi] => do
+    -- members: `s:a:b` slices, `p:v` Python ints, `u8:v` numpy scalars
+    let shape ← parseInts? shape; let axis ← parseNat? axis
+    let roi ← parseList? (fun tok => match tok.splitOn ":" with
+      | ["s", _, _] => (parsePIdx? tok).bind fun p => match p with
+          | .slc a b => some (WinEl.slc a b) | _ => none
+      | _ => (parseIntArg? tok).map WinEl.int) roi
+    pure (fmtResN (fun _ => "ok") (normRoiNp shape axis roi))
+  | ["np", "gbt", what, ty, tx, iy, ix] => do
+    let ty ← parseTiling? ty; let tx ← parseTiling? tx
+    let iy ← parseIntArg? iy; let ix ← parseIntArg? ix
+    match what with
+    | "region" => pure (fmtResN (fun (a, b) => s!"{fmtNS a} {fmtNS b}") (gbtRegionI ⟨ty, tx⟩ iy ix))
+    | "cshape" => pure (fmtResN (fun (a, b) => s!"{a} {b}") (gbtChunkShapeI ⟨ty, tx⟩ iy ix))
+    | _ => none
   | ["np", "shapefound", ch, i] => do
     let ch ← parseInts? ch; let i ← parseIntArg? i
     pure (fmtResN fmtInt (vtileShapeAsFound ch i))
@@ -189,6 +204,22 @@ def runDtype (args : List String) : Option String :=
   | ["dt", "init", l] => do
     let l ← parseList? parseDT? l
     pure (fmtDT (assemblerDtype l))
+  | ["dt", "castv", d, v] => do
+    let d ← parseDT? d; let v ← parseInt? v
+    pure (fmtOpt fmtInt (castInt d v))
+  | ["dt", "asmcast", chy, chx, keys, ry, rx, m, d] => do
+    -- extract(dtype=d, casting=...) of integer blocks: every cell is the cast of the mosaic cell (fill 0)
+    let chy ← parseInts? chy; let chx ← parseInts? chx
+    let keys ← parseList? parsePair? keys
+    let ry ← parsePIdx? ry; let rx ← parsePIdx? rx
+    let m ← parseInt? m; let d ← parseDT? d
+    let a : Assembler (Option Int) :=
+      { chy, chx, present := keys, lead := [], trail := [],
+        blk := fun key l y x t => castInt d (cellVal m key l y x t - m / 2) }
+    pure (fmtRes (fun ((_, sy, sx, _), xx) =>
+        let cells := (irange sy).flatMap fun y => (irange sx).map fun x => xx [] y x []
+        s!"{sy} {sx} {fmtList (fmtOpt fmtInt) cells}")
+      (extract a (castInt d 0) [] ry rx []))
   | ["dt", "ccast", rule, a, b] => do
     let r ← parseCasting? rule; let a ← parseDT? a; let b ← parseDT? b
     pure (fmtBool (canCast r a b))
